@@ -640,300 +640,7 @@ pub fn exec_doc(format: Format, set: &str, mode: Mode, bed_n: usize, raw: bool, 
     Ok((h.finish(), ok))
 }
 
-fn regions_for(names: &[String]) -> Vec<String> {
-    let mut v = Vec::new();
-    for (i, n) in names.iter().enumerate().take(3) {
-        v.push(n.clone());
-        if i == 0 {
-            v.push(format!("{n}:1-50"));
-            v.push(format!("{n}:399-400"));
-        } else {
-            v.push(format!("{n}:100-200"));
-        }
-    }
-    v.push("nosuchref".into());
-    v
-}
-
-/// Drains a query iterator (capped), rendering every record; returns false when the cap was exceeded.
-fn drain<T>(log: &mut Vec<String>, what: &str, cap: usize, ty: &str, it: impl Iterator<Item = io::Result<T>>, mut render: impl FnMut(&T) -> String) -> bool {
-    let mut n = 0usize;
-    for r in it {
-        if n > cap {
-            log.push(format!("end: {}{ty}", vnd::NONTERM));
-            return false;
-        }
-        match r {
-            Ok(rec) => log.push(format!("{what} rec[{n}]: {}", render(&rec))),
-            Err(e) => {
-                log.push(format!("{what}: {}", vnd::render_err(&e)));
-                break;
-            }
-        }
-        n += 1;
-    }
-    true
-}
-
-fn regions(names: &[String]) -> Vec<noodles_core::Region> {
-    regions_for(names).iter().filter_map(|r| r.parse().ok()).collect()
-}
-
-fn bam_queries<I: csi::BinningIndex>(log: &mut Vec<String>, data: &[u8], index: &I, lim: &vnd::Limits, cap: usize) -> bool {
-    let mut reader = bam::io::Reader::new(Cursor::new(data));
-    let header = match reader.read_header() {
-        Ok(h) => h,
-        Err(e) => {
-            log.push(format!("header: {}", vnd::render_err(&e)));
-            return true;
-        }
-    };
-    let names: Vec<String> = header.reference_sequences().keys().map(|k| k.to_string()).collect();
-    for region in regions(&names) {
-        match reader.query(&header, index, &region) {
-            Err(e) => log.push(format!("query {region}: {}", vnd::render_err(&e))),
-            Ok(q) => {
-                if !drain(log, &format!("query {region}"), cap, "bam::io::reader::query::Records", q.records(), |rec| vnd::render_alignment_record(&header, rec, lim)) {
-                    return false;
-                }
-            }
-        }
-    }
-    match reader.query_unmapped(index) {
-        Err(e) => log.push(format!("query_unmapped: {}", vnd::render_err(&e))),
-        Ok(it) => {
-            if !drain(log, "unmapped", cap, "bam::io::Reader::query_unmapped", it, |rec| vnd::render_alignment_record(&header, rec, lim)) {
-                return false;
-            }
-        }
-    }
-    true
-}
-
-fn sam_queries<I: csi::BinningIndex>(log: &mut Vec<String>, data: &[u8], index: &I, lim: &vnd::Limits, cap: usize) -> bool {
-    let mut reader = noodles_sam::io::Reader::new(bgzf::io::Reader::new(Cursor::new(data)));
-    let header = match reader.read_header() {
-        Ok(h) => h,
-        Err(e) => {
-            log.push(format!("header: {}", vnd::render_err(&e)));
-            return true;
-        }
-    };
-    let names: Vec<String> = header.reference_sequences().keys().map(|k| k.to_string()).collect();
-    for region in regions(&names) {
-        match reader.query(&header, index, &region) {
-            Err(e) => log.push(format!("query {region}: {}", vnd::render_err(&e))),
-            Ok(q) => {
-                if !drain(log, &format!("query {region}"), cap, "sam::io::reader::Query", q.records(), |rec| vnd::render_alignment_record(&header, rec, lim)) {
-                    return false;
-                }
-            }
-        }
-    }
-    match reader.query_unmapped(index) {
-        Err(e) => log.push(format!("query_unmapped: {}", vnd::render_err(&e))),
-        Ok(it) => {
-            if !drain(log, "unmapped", cap, "sam::io::Reader::query_unmapped", it, |rec| vnd::render_alignment_record(&header, rec, lim)) {
-                return false;
-            }
-        }
-    }
-    true
-}
-
-fn bcf_queries<I: csi::BinningIndex>(log: &mut Vec<String>, data: &[u8], index: &I, lim: &vnd::Limits, cap: usize) -> bool {
-    let mut reader = bcf::io::Reader::new(Cursor::new(data));
-    let header = match reader.read_header() {
-        Ok(h) => h,
-        Err(e) => {
-            log.push(format!("header: {}", vnd::render_err(&e)));
-            return true;
-        }
-    };
-    let names: Vec<String> = header.contigs().keys().map(|k| k.to_string()).collect();
-    for region in regions(&names) {
-        match reader.query(&header, index, &region) {
-            Err(e) => log.push(format!("query {region}: {}", vnd::render_err(&e))),
-            Ok(q) => {
-                if !drain(log, &format!("query {region}"), cap, "bcf::io::reader::query::Records", q.records(), |rec| vnd::render_variant_record(&header, rec, lim)) {
-                    return false;
-                }
-            }
-        }
-    }
-    true
-}
-
-fn vcf_queries<I: csi::BinningIndex>(log: &mut Vec<String>, data: &[u8], index: &I, lim: &vnd::Limits, cap: usize) -> bool {
-    let mut reader = vcf::io::Reader::new(bgzf::io::Reader::new(Cursor::new(data)));
-    let header = match reader.read_header() {
-        Ok(h) => h,
-        Err(e) => {
-            log.push(format!("header: {}", vnd::render_err(&e)));
-            return true;
-        }
-    };
-    let mut names: Vec<String> = header.contigs().keys().map(|k| k.to_string()).collect();
-    if let Some(h) = index.header() {
-        for n in h.reference_sequence_names() {
-            let n = n.to_string();
-            if !names.contains(&n) {
-                names.push(n);
-            }
-        }
-    }
-    for region in regions(&names) {
-        match reader.query(&header, index, &region) {
-            Err(e) => log.push(format!("query {region}: {}", vnd::render_err(&e))),
-            Ok(q) => {
-                if !drain(log, &format!("query {region}"), cap, "vcf::io::reader::query::Records", q.records(), |rec| vnd::render_variant_record(&header, rec, lim)) {
-                    return false;
-                }
-            }
-        }
-    }
-    true
-}
-
-/// Region queries of bgzipped tab-delimited text through `csi::io::IndexedReader` (the generic tabix path).
-fn indexed_text_queries<I: csi::BinningIndex>(log: &mut Vec<String>, data: &[u8], index: I, cap: usize) -> bool {
-    use csi::io::IndexedRecord as _;
-    let names: Vec<String> = index.header().map(|h| h.reference_sequence_names().iter().map(|n| n.to_string()).collect()).unwrap_or_default();
-    let mut reader = csi::io::IndexedReader::new(Cursor::new(data), index);
-    for region in regions(&names) {
-        match reader.query(&region) {
-            Err(e) => log.push(format!("indexed query {region}: {}", vnd::render_err(&e))),
-            Ok(q) => {
-                if !drain(log, &format!("indexed query {region}"), cap, "csi::io::IndexedRecords", q, |rec| {
-                    format!("name={} start={} end={} line={}", vnd::esc(rec.indexed_reference_sequence_name()), rec.indexed_start_position(), rec.indexed_end_position(), vnd::esc(rec.as_ref()))
-                }) {
-                    return false;
-                }
-            }
-        }
-    }
-    true
-}
-
-fn cram_queries(log: &mut Vec<String>, data: &[u8], index: &noodles_cram::crai::Index, lim: &vnd::Limits, cap: usize) -> bool {
-    let repo = vnd::records::repository();
-    let mut reader = noodles_cram::io::reader::Builder::default().set_reference_sequence_repository(repo).build_from_reader(Cursor::new(data));
-    let header = match reader.read_header() {
-        Ok(h) => h,
-        Err(e) => {
-            log.push(format!("header: {}", vnd::render_err(&e)));
-            return true;
-        }
-    };
-    let names: Vec<String> = header.reference_sequences().keys().map(|k| k.to_string()).collect();
-    for region in regions(&names) {
-        match reader.query(&header, index, &region) {
-            Err(e) => log.push(format!("query {region}: {}", vnd::render_err(&e))),
-            Ok(q) => {
-                if !drain(log, &format!("query {region}"), cap, "cram::io::reader::Query", q.records(), |rec| vnd::render_alignment_record(&header, rec, lim)) {
-                    return false;
-                }
-            }
-        }
-    }
-    match reader.query_unmapped(&header, index) {
-        Err(e) => log.push(format!("query_unmapped: {}", vnd::render_err(&e))),
-        Ok(it) => {
-            if !drain(log, "unmapped", cap, "cram::io::Reader::query_unmapped", it, |rec| vnd::render_alignment_record(&header, rec, lim)) {
-                return false;
-            }
-        }
-    }
-    true
-}
-
-/// Parses the index and runs region queries (and `query_unmapped` where available) of the data with it. Either
-/// side may be the mutated one.
-pub fn query_log(data_format: Format, data_set: &str, data: &[u8], index_format: Format, index_bytes: &[u8]) -> Vec<String> {
-    let lim = vnd::Limits::for_input(data.len() + index_bytes.len());
-    let cap = data.len() + index_bytes.len() + 1000;
-    let mut log = Vec::new();
-    macro_rules! parse {
-        ($e:expr) => {
-            match $e {
-                Ok(i) => i,
-                Err(e) => return vec![vnd::end_err(&e)],
-            }
-        };
-    }
-    let done = match (data_format, index_format) {
-        (Format::Bam, Format::Bai) => {
-            let index = parse!(bam::bai::io::Reader::new(index_bytes).read_index());
-            bam_queries(&mut log, data, &index, &lim, cap)
-        }
-        (Format::Bam, Format::Csi) => {
-            let index = parse!(csi::io::Reader::new(index_bytes).read_index());
-            bam_queries(&mut log, data, &index, &lim, cap)
-        }
-        (Format::SamGz, Format::Csi) => {
-            let index = parse!(csi::io::Reader::new(index_bytes).read_index());
-            sam_queries(&mut log, data, &index, &lim, cap)
-        }
-        (Format::Bcf, Format::Csi) => {
-            let index = parse!(csi::io::Reader::new(index_bytes).read_index());
-            bcf_queries(&mut log, data, &index, &lim, cap)
-        }
-        (Format::VcfGz, Format::Tbi) => {
-            let index = parse!(tabix::io::Reader::new(index_bytes).read_index());
-            vcf_queries(&mut log, data, &index, &lim, cap) && indexed_text_queries(&mut log, data, index, cap)
-        }
-        (Format::VcfGz, Format::Csi) => {
-            let index = parse!(csi::io::Reader::new(index_bytes).read_index());
-            vcf_queries(&mut log, data, &index, &lim, cap) && indexed_text_queries(&mut log, data, index, cap)
-        }
-        (Format::Cram, Format::Crai) => {
-            let index = parse!(noodles_cram::crai::io::Reader::new(index_bytes).read_index());
-            cram_queries(&mut log, data, &index, &lim, cap)
-        }
-        (Format::Bgzf, Format::Tbi) => {
-            let index = parse!(tabix::io::Reader::new(index_bytes).read_index());
-            let names: Vec<String> = csi::BinningIndex::header(&index).map(|h| h.reference_sequence_names().iter().map(|n| n.to_string()).collect()).unwrap_or_default();
-            let mut ok = true;
-            match data_set {
-                "gff.gz" => {
-                    let mut reader = noodles_gff::io::Reader::new(bgzf::io::Reader::new(Cursor::new(data)));
-                    for region in regions(&names) {
-                        match reader.query(&index, &region) {
-                            Err(e) => log.push(format!("query {region}: {}", vnd::render_err(&e))),
-                            Ok(q) => {
-                                if !drain(&mut log, &format!("query {region}"), cap, "gff::io::Reader::query", q, |rec| vnd::render_feature_record(rec, &lim)) {
-                                    ok = false;
-                                    break;
-                                }
-                            }
-                        }
-                    }
-                }
-                "gtf.gz" => {
-                    let mut reader = noodles_gtf::io::Reader::new(bgzf::io::Reader::new(Cursor::new(data)));
-                    for region in regions(&names) {
-                        match reader.query(&index, &region) {
-                            Err(e) => log.push(format!("query {region}: {}", vnd::render_err(&e))),
-                            Ok(q) => {
-                                if !drain(&mut log, &format!("query {region}"), cap, "gtf::io::Reader::query", q, |rec| vnd::render_feature_record(rec, &lim)) {
-                                    ok = false;
-                                    break;
-                                }
-                            }
-                        }
-                    }
-                }
-                _ => {}
-            }
-            ok && indexed_text_queries(&mut log, data, index, cap)
-        }
-        _ => true,
-    };
-    if done {
-        log.push(vnd::end_eof());
-    }
-    log
-}
+pub use vnd::query::query_log;
 
 pub fn len_hint_of(d: &Doc) -> usize {
     d.inner.as_ref().map(|i| i.bytes.len()).unwrap_or(0)
